@@ -312,9 +312,24 @@ def extra_c16(pid, tier, seed, workdir, driver, lib):
                 continue
             cut = resets[-1]
             prefix = seq[:cut + 1]
-            prelude = [l for i, l in enumerate(prefix)
-                       if l.split()[:1] and l.split()[0] in ("world", "reg", "fill", "filter", "obs")
-                       and (l.split()[0] == "world" or results.get(s + i + 1, "").startswith("ok"))]
+            # `rebuild c r` replaces the world by a NEW one (same registrations, other capacities):
+            # filter and observer objects defined before it belong to the old world and are gone
+            rebuilds = [i for i, l in enumerate(prefix) if l.split()[:1] == ["rebuild"] and results.get(s + i + 1, "").startswith("ok")]
+            last_rb = rebuilds[-1] if rebuilds else -1
+            prelude = []
+            for i, l in enumerate(prefix):
+                t = l.split()
+                if not t or t[0] not in ("world", "reg", "fill", "filter", "obs"):
+                    continue
+                if t[0] != "world" and not results.get(s + i + 1, "").startswith("ok"):
+                    continue
+                if t[0] in ("filter", "obs") and i < last_rb:
+                    continue
+                if t[0] == "world" and last_rb >= 0:
+                    rb = prefix[last_rb].split()
+                    t = [t[0], rb[1], rb[2]] + t[3:]
+                    l = " ".join(t)
+                prelude.append(l)
             prelude, suffix = _c16_filter(prelude, seq[cut + 1:])
             if len(suffix) < 3:
                 continue
